@@ -15,19 +15,21 @@
 From MptV Require Import Base.Mem C04.ArrayModel C04.ArraySpec C04.ArrayHeap C04.ArrayBuf C04.ArrayOps
   C04.ArrayRefine.
 
-(* One operation through one handle, any state, any number of handles, any sharing
-   and flags: the model does not fault (no access outside a buffer), the invariant is
+(* One operation (ANY of the 16 operations of [op]: append, insert, typed set, slice,
+   reserve, clone/clear, reduce, in-place mpt_buffer_insert/cut/set, printf, string, new
+   buffer, flags, slice creation, slice write) through one handle, any state, any number
+   of handles, any sharing and flags: the model does not fault (no access outside a buffer), the invariant is
    kept, the values of ALL handles afterwards are exactly the specification's: the
    target holds the result of the vector operation, nothing else changed. *)
 Theorem C04_cow_step :
-  forall st o, inv st -> covered_op o = true ->
+  forall st o, inv st ->
     let '(st', out) := step st o in
     out <> OFault /\ inv st' /\ sstep (abs st) o (hint_of st o out) = (abs st', vis out).
 Proof. exact cow_step. Qed.
 
 (* Every OTHER handle reads what it read before. *)
 Theorem C04_others_unchanged :
-  forall st o y, inv st -> covered_op o = true -> y <> target o ->
+  forall st o y, inv st -> y <> target o ->
     view (fst (step st o)) y = view st y.
 Proof. exact cow_others. Qed.
 
@@ -35,27 +37,27 @@ Proof. exact cow_others. Qed.
    values and outcomes equals the run on plain values; no step faults; the invariant
    holds throughout. *)
 Theorem C04_cow_histories :
-  forall ops st, inv st -> forallb covered_op ops = true ->
+  forall ops st, inv st ->
     run_abs st ops = srun st (abs st) ops /\
     Forall (fun r => snd r <> OFault /\ inv (fst r)) (run st ops).
 Proof. exact cow_histories. Qed.
 
 (* A refused (or not applied) operation changes no value. *)
 Theorem C04_refused_unchanged :
-  forall st o, inv st -> covered_op o = true ->
+  forall st o, inv st ->
     snd (step st o) = ORefused \/ snd (step st o) = OGuard -> abs (fst (step st o)) = abs st.
 Proof. exact refused_unchanged. Qed.
 
 (* No model access leaves the [size] bytes of a buffer (every access is a checked
    rd/wr/mv; outside = Fault). *)
 Theorem C04_model_no_fault :
-  forall st o, inv st -> covered_op o = true -> snd (step st o) <> OFault.
+  forall st o, inv st -> snd (step st o) <> OFault.
 Proof. exact model_no_fault. Qed.
 
 (* The reference count of a buffer is the number of handles on it, in every state
    reachable from the empty one. *)
 Theorem C04_ref_inv :
-  forall ops n m, forallb covered_op ops = true ->
+  forall ops n m,
     Forall (fun r => forall i b, hget (sheap (fst r)) i = Some b -> bref b = count_refs (shnd (fst r)) i)
            (run (init n m) ops).
 Proof. exact ref_inv. Qed.
@@ -76,6 +78,13 @@ Example C04_example_sharing :
   map (fun r => map hbuf (shnd (fst r)))
       (run (init 2 0) [OAppend 0 [1;2;3]%N; OClone 1 (Some 0); OAppend 0 [4]%N])
   = [ [Some 0; None]; [Some 0; Some 0]; [Some 1; Some 0] ].
+Proof. vm_compute. reflexivity. Qed.
+
+(* a slice created on a shared buffer and written through: the array keeps its bytes *)
+Example C04_example_slice_write :
+  map (fun r => map (fun v => svec (snd v)) (abs (fst r)))
+      (run (init 1 1) [OAppend 0 [1;2;3]%N; OMkSlice 1 0 1 2; OWrite 1 2 1 true [7;8]%N; OPrintf 0 [65]%N])
+  = [ [[1;2;3]; []]; [[1;2;3]; [2;3]]; [[1;2;3]; [2;3;7;8]]; [[1;2;3]; [2;3;7;8]] ]%N.
 Proof. vm_compute. reflexivity. Qed.
 
 Example C04_example_refusal :
